@@ -531,3 +531,132 @@ Example C19_ex_history :
      DescribeHist.AOut (Ok (Raises TypeMismatchIssue [(CType, [sub [98]%N; (PEntry, KName host)])]));
      DescribeHist.ADesc (Ok [(CType, [sub [99]%N])])].
 Proof. vm_compute. reflexivity. Qed.
+
+(* ---- named types (aliases) at ANY position of the expected type (Model/DescribeNested.v) ----
+   xty = a lattice type, an alias of an xty, or Optional / Array / Hash / Tuple / Struct / Variant over xty's; xres = the
+   type with every alias replaced by what it resolves to; xasg e a = asg (xres e) a.  For ALL such expected types, all
+   actual types of the lattice universe, all paths, every regexp oracle and every verdict of TupleType.Equals. *)
+From PcoreV Require Model.DescribeNested Proofs.DescribeNestedProofs.
+
+Theorem C19_nested_describe_total :
+  forall rx teq (e : DescribeNested.xty) (a : ty) (p : path), exists ms, DescribeNested.xdescribe rx teq e a p = Ok ms.
+Proof. exact DescribeNestedProofs.xdescribe_total. Qed.
+Print Assumptions C19_nested_describe_total.
+
+Theorem C19_nested_empty_iff_assignable :
+  forall rx teq (e : DescribeNested.xty) (a : ty) (p : path),
+    DescribeNested.xdescribe rx teq e a p = Ok [] <-> asg rx true (DescribeNested.xres e) a = true.
+Proof. exact DescribeNestedProofs.xdescribe_empty_iff. Qed.
+Print Assumptions C19_nested_empty_iff_assignable.
+
+Theorem C19_nested_describe_below :
+  forall rx teq (e : DescribeNested.xty) (a : ty) (p : path) ms,
+    DescribeNested.xdescribe rx teq e a p = Ok ms -> Forall (fun m => exists r, snd m = p ++ r) ms.
+Proof. exact DescribeNestedProofs.xdescribe_below. Qed.
+Print Assumptions C19_nested_describe_below.
+
+Theorem C19_nested_names_subject :
+  forall rx teq (e : DescribeNested.xty) (a : ty) (subj : pelem) (p : path) ms,
+    DescribeNested.xdescribe rx teq e a (subj :: p) = Ok ms -> Forall (fun m => hd_error (snd m) = Some subj) ms.
+Proof. exact DescribeNestedProofs.xdescribe_names_subject. Qed.
+Print Assumptions C19_nested_names_subject.
+
+(* the nested model extends the two models it generalises: on an alias-free lattice type it is `describe`, on a chain of
+   aliases at the top it is the named-type describer of Model/DescribeHist.v *)
+Theorem C19_nested_extends :
+  forall rx teq,
+    (forall t a p, DescribeNested.xdescribe rx teq (DescribeNested.XTy t) a p = describe rx teq t a p) /\
+    (forall e a p, DescribeNested.xdescribe rx teq (DescribeNestedProofs.x_of_nty e) a p = DescribeHist.ndescribe rx teq e a p).
+Proof. exact (fun rx teq => conj (DescribeNestedProofs.xdescribe_lattice rx teq) (DescribeNestedProofs.xdescribe_of_nty rx teq)). Qed.
+Print Assumptions C19_nested_extends.
+
+(* histories over such expected types: every answer names the subject of ITS call; a description is empty iff assignable;
+   AssertInstance raises iff not an instance - whatever was asked before *)
+Theorem C19_nested_history_names_its_subject :
+  forall rx teq (w : DescribeNested.xworld) cs i c ans,
+    nth_error cs i = Some c -> nth_error (DescribeNested.xrun rx teq w [] cs) i = Some ans ->
+    Forall (fun m => hd_error (snd m) = Some (PSubject, KName (fn_prefix ++ DescribeHist.call_name c ++ [58%N])))
+           (DescribeHist.answer_mismatches ans).
+Proof. exact DescribeNestedProofs.xrun_names_its_subject. Qed.
+Print Assumptions C19_nested_history_names_its_subject.
+
+Theorem C19_nested_history_describe_empty_iff :
+  forall rx teq (w : DescribeNested.xworld) cs i name e a te ta,
+    nth_error cs i = Some (DescribeHist.CDescribe name e a) ->
+    nth_error (DescribeHist.w_es w) e = Some te -> nth_error (DescribeHist.w_as w) a = Some ta ->
+    exists ms, nth_error (DescribeNested.xrun rx teq w [] cs) i = Some (DescribeHist.ADesc (Ok ms)) /\
+               (ms = [] <-> DescribeNested.xasg rx te ta = true).
+Proof. exact DescribeNestedProofs.xrun_describe_empty_iff. Qed.
+Print Assumptions C19_nested_history_describe_empty_iff.
+
+Theorem C19_nested_history_assert_instance :
+  forall rx teq (w : DescribeNested.xworld) cs i p e v te tv,
+    nth_error cs i = Some (DescribeHist.CAssertInstance p e v) ->
+    nth_error (DescribeHist.w_es w) e = Some te -> nth_error (DescribeHist.w_vs w) v = Some tv ->
+    (DescribeNested.xinst rx te (fst tv) = true /\
+     nth_error (DescribeNested.xrun rx teq w [] cs) i = Some (DescribeHist.AOut (Ok Returns))) \/
+    (DescribeNested.xinst rx te (fst tv) = false /\
+     exists m ms, nth_error (DescribeNested.xrun rx teq w [] cs) i
+                  = Some (DescribeHist.AOut (Ok (Raises TypeMismatchIssue (m :: ms))))).
+Proof. exact DescribeNestedProofs.xrun_assert_instance. Qed.
+Print Assumptions C19_nested_history_assert_instance.
+
+(* ---- alias ENVIRONMENTS: `bodies` = the declarations (declaration i = the type alias i resolves to, written with
+   references `ERef j`), `t` = the expected type written over them.  The boolean conditions: env_ok bodies = every
+   declaration refers to EARLIER declarations only (the environment has no cycle), refs_below = every reference of t is
+   declared.  They are exactly the domain of the unfolding; reference i unfolds to an alias object whose resolved type is
+   body i over the earlier declarations; and the three clauses hold for every such expected type. ---- *)
+From PcoreV Require Proofs.DescribeNestedEnvProofs.
+
+Theorem C19_nested_env_defined_iff :
+  forall (bodies : list DescribeNested.ety) (t : DescribeNested.ety),
+    (exists x, DescribeNested.eresolve bodies t = Some x) <->
+    DescribeNested.env_ok bodies && DescribeNested.refs_below (length bodies) t = true.
+Proof. exact DescribeNestedEnvProofs.eresolve_defined_iff. Qed.
+Print Assumptions C19_nested_env_defined_iff.
+
+Theorem C19_nested_env_reference :
+  forall bodies i b x,
+    DescribeNested.eresolve bodies (DescribeNested.ERef i) = Some x -> nth_error bodies i = Some b ->
+    exists r, x = DescribeNested.XAlias r /\ DescribeNested.eresolve (firstn i bodies) b = Some r.
+Proof. exact DescribeNestedEnvProofs.eresolve_ref. Qed.
+Print Assumptions C19_nested_env_reference.
+
+Theorem C19_nested_env_clauses :
+  forall rx teq (bodies : list DescribeNested.ety) (t : DescribeNested.ety),
+    DescribeNested.env_ok bodies = true -> DescribeNested.refs_below (length bodies) t = true ->
+    exists x, DescribeNested.eresolve bodies t = Some x /\
+      (forall a p, exists ms, DescribeNested.xdescribe rx teq x a p = Ok ms) /\
+      (forall a p, DescribeNested.xdescribe rx teq x a p = Ok [] <-> asg rx true (DescribeNested.xres x) a = true) /\
+      (forall a subj p ms, DescribeNested.xdescribe rx teq x a (subj :: p) = Ok ms ->
+                           Forall (fun m => hd_error (snd m) = Some subj) ms).
+Proof. exact DescribeNestedEnvProofs.env_describe_clauses. Qed.
+Print Assumptions C19_nested_env_clauses.
+
+(* type Port = Integer[0, 5]; type Host = Variant[String, Port]:
+   Struct[{p => Port, h => Array[Host]}] against Struct[{p => String, h => Tuple[Float]}]: the mismatch of the alias Port is
+   reported at entry 'p'; below the alias Host the two variant mismatches merge into ONE, which is reported as a type
+   mismatch of the alias at entry 'h' index 0 (no variant element); against an assignable Struct nothing is reported *)
+Example C19_ex_nested :
+  let rx := fun _ _ => false in
+  let teq := fun _ _ => false in
+  let port := DescribeNested.XAlias (DescribeNested.XTy (TInteger 0 5)) in
+  let host := DescribeNested.XAlias (DescribeNested.XVariant [DescribeNested.XTy TString; port]) in
+  let kp := [112]%N in let kh := [104]%N in
+  let e := DescribeNested.XStruct [(kp, (TStringVal kp, port));
+                                   (kh, (TStringVal kh, DescribeNested.XArray host 0 100))] in
+  let a1 := TStruct [(kp, (TStringVal kp, TString)); (kh, (TStringVal kh, TTuple [TFloat 0 1] false 1 1))] in
+  let a2 := TStruct [(kp, (TStringVal kp, TInteger 1 2)); (kh, (TStringVal kh, TArray TString 0 3))] in
+  let s := (PSubject, KName [120]%N) in
+  DescribeNested.xdescribe rx teq e a1 [s] = Ok [(CType, [s; (PEntry, KName kp)]); (CType, [s; (PEntry, KName kh); (PIndex, KNum 0)])] /\
+  DescribeNested.xdescribe rx teq e a2 [s] = Ok [] /\
+  DescribeNested.xres e = TStruct [(kp, (TStringVal kp, TInteger 0 5));
+                                   (kh, (TStringVal kh, TArray (TVariant [TString; TInteger 0 5]) 0 100))] /\
+  (* the same type over the environment [Port; Host]; a self-referential declaration is not an environment *)
+  let bodies := [DescribeNested.ETy (TInteger 0 5);
+                 DescribeNested.EVariant [DescribeNested.ETy TString; DescribeNested.ERef 0]] in
+  let t := DescribeNested.EStruct [(kp, (TStringVal kp, DescribeNested.ERef 0));
+                                   (kh, (TStringVal kh, DescribeNested.EArray (DescribeNested.ERef 1) 0 100))] in
+  DescribeNested.env_ok bodies = true /\ DescribeNested.eresolve bodies t = Some e /\
+  DescribeNested.env_ok [DescribeNested.EArray (DescribeNested.ERef 0) 0 100] = false.
+Proof. vm_compute. repeat split; reflexivity. Qed.
